@@ -138,6 +138,9 @@ type Sim struct {
 	YieldJobs bool
 	// FIFO disables drawing of the schedule: always lowest key.
 	FIFO bool
+	// Unhashed: events are recorded but do not enter the trace hash (used for
+	// executions whose schedule the simulator deliberately leaves to the Go runtime).
+	Unhashed bool
 
 	mu       sync.Mutex
 	parked   []*parked
@@ -150,6 +153,7 @@ type Sim struct {
 
 	Now        time.Duration
 	Steps      int
+	seq        int // numbering of hashed trace lines (does not advance in Unhashed mode)
 	Faults     map[string]int
 	Probes     map[string]int
 	Violations []Violation
@@ -239,7 +243,21 @@ func (s *Sim) Event(format string, args ...any) {
 	s.mu.Unlock()
 }
 
+// stepNo returns the number printed in front of a release line.
+func (s *Sim) stepNo() int {
+	if !s.Unhashed {
+		s.seq++
+	}
+	return s.seq
+}
+
 func (s *Sim) eventLocked(line string) {
+	if s.Unhashed {
+		if s.KeepTrace {
+			s.TraceLines = append(s.TraceLines, "~ "+line)
+		}
+		return
+	}
 	s.hasher.Write([]byte(line))
 	s.hasher.Write([]byte{'\n'})
 	if s.KeepTrace {
@@ -470,7 +488,7 @@ func (s *Sim) Run() {
 			}
 			s.removeLocked(next)
 			s.Steps++
-			s.eventLocked(fmt.Sprintf("%d T %s timeout", s.Steps, next.key))
+			s.eventLocked(fmt.Sprintf("%d T %s timeout", s.stepNo(), next.key))
 			s.schedHash.Write([]byte(next.key + "!T\n"))
 			s.current = next
 			s.curDec = Decision{Timeout: true}
@@ -498,7 +516,7 @@ func (s *Sim) Run() {
 			s.mu.Lock()
 			s.removeLocked(chosen)
 			s.Steps++
-			s.eventLocked(fmt.Sprintf("%d T %s timeout", s.Steps, chosen.key))
+			s.eventLocked(fmt.Sprintf("%d T %s timeout", s.stepNo(), chosen.key))
 			s.schedHash.Write([]byte(chosen.key + "!T\n"))
 			s.current = chosen
 			s.curDec = Decision{Timeout: true}
@@ -522,7 +540,7 @@ func (s *Sim) Run() {
 			dec = Decision{}
 		}
 		if dec.Fault == "machine-crash" {
-			s.Event("%d M %s", s.Steps, chosen.key)
+			s.Event("%d M %s", s.stepNo(), chosen.key)
 			s.schedHash.Write([]byte(chosen.key + "!M\n"))
 			s.Faults["machine-crash"]++
 			s.mu.Lock()
@@ -534,7 +552,7 @@ func (s *Sim) Run() {
 			continue
 		}
 		if dec.Fault == "proc-crash" {
-			s.Event("%d K %s", s.Steps, chosen.key)
+			s.Event("%d K %s", s.stepNo(), chosen.key)
 			s.schedHash.Write([]byte(chosen.key + "!K\n"))
 			s.Faults["proc-crash"]++
 			s.Kill(chosen.proc)
@@ -546,11 +564,13 @@ func (s *Sim) Run() {
 		s.mu.Lock()
 		s.removeLocked(chosen)
 		if dec.Fault != "" {
-			s.eventLocked(fmt.Sprintf("%d R %s f=%s/%d", s.Steps, chosen.key, dec.Fault, dec.Arg))
+			s.eventLocked(fmt.Sprintf("%d R %s f=%s/%d", s.stepNo(), chosen.key, dec.Fault, dec.Arg))
 		} else {
-			s.eventLocked(fmt.Sprintf("%d R %s", s.Steps, chosen.key))
+			s.eventLocked(fmt.Sprintf("%d R %s", s.stepNo(), chosen.key))
 		}
-		s.schedHash.Write([]byte(chosen.key + "\n"))
+		if !s.Unhashed {
+			s.schedHash.Write([]byte(chosen.key + "\n"))
+		}
 		s.current = chosen
 		s.curDec = dec
 		s.mu.Unlock()
